@@ -589,6 +589,8 @@ def model_edges(tbs, first_edge=0, polarity=0, quirks=()):
     if pol:
         edges.append(first_edge)
     t = first_edge
+    pending = []            # pauses played since the last block that certainly produced an edge
+    t_emit = first_edge     # instant of the last edge that is not a zero-length bit pulse of a data block (those are merged away)
     ranges = []
     tail_index = None
     tail_time = None
@@ -596,14 +598,16 @@ def model_edges(tbs, first_edge=0, polarity=0, quirks=()):
     npulses = 0
 
     def adjust(level):
-        nonlocal adjustments
+        nonlocal adjustments, t_emit
         if level is not None and (len(edges) - 1) % 2 != level ^ pol:
             edges.append(t)
+            t_emit = t
             adjustments += 1
 
     nblocks = len(tbs)
     for i, tb in enumerate(tbs):
-        rg = {'first': len(edges) - 1, 'dstart': None, 'dend': None, 'last': None, 'tail': False, 'gap': 0}
+        rg = {'first': len(edges) - 1, 'dstart': None, 'dend': None, 'last': None, 'tail': False, 'gap': 0, 'gaps': [0]}
+        emits = any(c for c, d in tb.pulses)
         if tb.pulses:
             adjust(tb.level)
             rg['first'] = len(edges) - 1
@@ -614,16 +618,20 @@ def model_edges(tbs, first_edge=0, polarity=0, quirks=()):
                     else:
                         edges.extend([t] * count)
                     t += dur * count
+                    t_emit = t
                     npulses += count
         if tb.data:
             adjust(tb.level)
             if not tb.pulses:
                 rg['first'] = len(edges) - 1
             rg['dstart'] = len(edges) - 1
-            rg['gap'] = t - edges[-1]      # pauses since the last edge: they lengthen the first pulse as seen on the tape
+            rg['gap'] = t - t_emit         # pauses since the last edge: they lengthen the first pulse as seen on the tape
+            # the silence before the data, measured from whichever edge is the last one before it
+            rg['gaps'] = sorted({sum(pending[k:]) for k in range(len(pending) + 1)})
             if not tb.has_zero_seq() and len(tb.s0) != len(tb.s1) and tb.used < 8 and len(set(used_bits_pulses(tb))) == 2:
                 preds.add('cut')
             durs = _bit_durations(tb, 'cut' in quirks)
+            emits = emits or any(durs) or bool(tb.tail)
             extra_toggle = False
             if tb.has_zero_seq() and durs:
                 lead = 0
@@ -635,7 +643,10 @@ def model_edges(tbs, first_edge=0, polarity=0, quirks=()):
                 if rg['gap'] > 0 and lead % 2 and lead < len(durs):
                     preds.add('lead')
                     if 'lead' in quirks:
-                        edges[-1] += durs[lead]
+                        j = len(edges) - 1
+                        while j > 0 and edges[j] != t_emit:
+                            j -= 1
+                        edges[j] += durs[lead]
                         t += durs[lead]
                         durs = durs[lead + 1:]
                 if tb.tail and trail % 2:
@@ -644,6 +655,8 @@ def model_edges(tbs, first_edge=0, polarity=0, quirks=()):
             if durs:
                 acc = list(accumulate(durs, initial=t))
                 edges.extend(acc[1:])
+                if acc[-1] != t:
+                    t_emit = acc[-1]
                 t = acc[-1]
                 npulses += len(durs)
             if extra_toggle:
@@ -652,15 +665,19 @@ def model_edges(tbs, first_edge=0, polarity=0, quirks=()):
             if tb.tail:
                 t += tb.tail
                 edges.append(t)
+                t_emit = t
                 tail_index = len(edges) - 1
                 tail_time = t
                 rg['tail'] = True
                 npulses += 1
         rg['last'] = len(edges) - 1
         ranges.append(rg)
+        if emits:
+            pending = []
         if tb.pause and i + 1 < nblocks:
             adjust(tb.level)
             t += tb.pause
+            pending.append(tb.pause)
 
     m = Model()
     m.popped = False
@@ -691,7 +708,7 @@ def model_edges(tbs, first_edge=0, polarity=0, quirks=()):
 def canonical(edges):
     """Instants at which the level really changes: edges that coincide cancel in pairs."""
     out = []
-    for e in edges:
+    for e in sorted(edges):
         if out and out[-1] == e:
             out.pop()
         else:
